@@ -120,9 +120,15 @@ CHECKS = {
         text="PROVED (lemma, all column sets): in the branch of ensure_has_primary_key taken when no column is marked '[PK]', exactly one column is written or updated and its description then starts with '[PK]' — so primary-key inference yields one key, never two. "
              "BOUNDED only — the property itself: each of the three variants parses back to the same columns (names, order, types, nullability, defaults, descriptions up to trailing full stops, [PK]/[FK] markers), the three agree, and every emission carries exactly one primary_key=True — over the SQL-representable slice of IR(n) x 3 styles x force_pk_id. One known finding (the public hybrid parser rejects the hybrid emission).",
         note="The bridge between the branch condition (a filter/map pipeline) and 'no column is marked' is an assumed idiom spec, listed in the evidence."),
+    "C12": dict(
+        category="other", design_ref="DESIGN.md §5 C12",
+        technique="contract-based frame verification (write-frame, dominance and shape rules over the real ast of cdd/shared/conformance.py); the property's oracle through the real CLI on file triples for the rest",
+        text="PROVED (thin frame lemmas, rule engine): _conform_filename writes only through emit.file.file on its own (normalised) filename; the in-place rewrite is dominated by `not cmp_ast(original, replacement)` and `rewrite_at_query.replaced`, so an already conforming target is not written; ground_truth only reads the truth file and hands every listed file of every kind to _conform_filename. "
+             "BOUNDED only — and mostly known findings on the pinned tree: that each target re-parses to the truth's interface, unrelated code survives, and a second run is byte-identical, over truth kind x initial state of the three targets (same / other / missing / empty), two runs each. Five known-finding classes (method and argparse targets are never replaced; missing method file crashes; empty/missing files are appended to on every run).",
+        note="The repair of the findings is not small (RewriteAtQuery never replaces a FunctionDef node), so they are recorded, not fixed."),
 }
 
-NA_REASON = "check not built yet (work in progress; see DESIGN.md for the plan)"
+NA_REASON = "not claimed"
 
 m = {
     "version": 1,
